@@ -47,6 +47,11 @@ func checkC04(c *hx.Ctx) {
 			types = ref.KeyTypes
 		}
 		pc := hx.NewClient(hx.NewVersion(p, hx.VersionOpts{ParserOpts: hx.StrictResolution()}))
+		if i%3 == 0 {
+			// operations stay stamped with version 0 while a stricter version becomes current during the history
+			pc = hx.NewClientWithTrap(hx.NewVersion(p, hx.VersionOpts{ParserOpts: hx.StrictResolution()}), 1015)
+			c.Count("histories_crossing_the_genesis_of_a_stricter_version")
+		}
 		intakePC := hx.NewClient(hx.NewVersion(p, hx.VersionOpts{}))
 		if i%2 == 0 {
 			// ---- (a) + (b): deactivation is terminal
@@ -205,6 +210,7 @@ func checkC04(c *hx.Ctx) {
 		}
 	})
 	c.Floor("deactivated_histories", 100)
+	c.Floor("histories_crossing_the_genesis_of_a_stricter_version", 50)
 	c.Floor("unpublished_extension_ops", 50)
 	c.Floor("recover_histories", 100)
 	c.Floor("intake_attempts:update", 50)
